@@ -270,6 +270,13 @@ func scenarioProperty(t *testing.T, prop, proto, rule string, run func(*wire.Sce
 	rapid.Check(t, func(t *rapid.T) {
 		sc := env.GenScenario(t, maxSets, maxRecs)
 		v, sig, err := run(&sc)
+		if err == nil && v.NT && rapid.IntRange(0, 7).Draw(t, "twins") == 0 {
+			// the same scenario, each twin with a template cache of its own, run by 6 goroutines at once
+			if e := concurrently(6, func() error { _, _, e := run(&sc); return e }); e != nil {
+				sig, err = "concurrent", fmt.Errorf("decoded by 6 goroutines at once (separate caches): %v", e)
+			}
+			v.label(true, "concurrent-twins")
+		}
 		col.report(t, mustJSON(sc), v, sig, err)
 	})
 }
